@@ -183,22 +183,34 @@ impl<'l, Data> LoopHandle<'l, Data> {
     ///
     /// **Note:** this cannot be done from within the source callback.
     pub fn enable(&self, token: &RegistrationToken) -> crate::Result<()> {
-        if let &SourceEntry {
-            token: entry_token,
-            source: Some(ref source),
-        } = self.inner.sources.borrow().get(token.inner)?
-        {
-            trace!(source = entry_token.get_id(), "Registering source");
-            source.register(
-                &mut self.inner.poll.borrow_mut(),
-                &mut self
-                    .inner
-                    .sources_with_additional_lifecycle_events
-                    .borrow_mut(),
-                &mut TokenFactory::new(entry_token),
-            )
-        } else {
-            Err(crate::Error::InvalidToken)
+        let (entry_token, source) = self.live_source(token)?;
+        trace!(source = entry_token.get_id(), "Registering source");
+        source.register(
+            &mut self.inner.poll.borrow_mut(),
+            &mut self
+                .inner
+                .sources_with_additional_lifecycle_events
+                .borrow_mut(),
+            &mut TokenFactory::new(entry_token),
+        )
+    }
+
+    /// Looks up the source a token refers to, without keeping the list of sources borrowed.
+    ///
+    /// The (un)registration of a source may run user code that accesses the loop again: a
+    /// source that drops an `Async` adapter there makes the adapter free its own slot, for
+    /// example.
+    #[allow(clippy::type_complexity)]
+    fn live_source(
+        &self,
+        token: &RegistrationToken,
+    ) -> crate::Result<(TokenInner, Rc<dyn crate::sources::EventDispatcher<Data> + 'l>)> {
+        match self.inner.sources.borrow().get(token.inner)? {
+            &SourceEntry {
+                token: entry_token,
+                source: Some(ref source),
+            } => Ok((entry_token, source.clone())),
+            _ => Err(crate::Error::InvalidToken),
         }
     }
 
@@ -207,69 +219,55 @@ impl<'l, Data> LoopHandle<'l, Data> {
     /// If after accessing the source you changed its parameters in a way that requires
     /// updating its registration.
     pub fn update(&self, token: &RegistrationToken) -> crate::Result<()> {
-        if let &SourceEntry {
-            token: entry_token,
-            source: Some(ref source),
-        } = self.inner.sources.borrow().get(token.inner)?
-        {
+        let (entry_token, source) = self.live_source(token)?;
+        trace!(
+            source = entry_token.get_id(),
+            "Updating registration of source"
+        );
+        if !source.reregister(
+            &mut self.inner.poll.borrow_mut(),
+            &mut self
+                .inner
+                .sources_with_additional_lifecycle_events
+                .borrow_mut(),
+            &mut TokenFactory::new(entry_token),
+        )? {
             trace!(
                 source = entry_token.get_id(),
-                "Updating registration of source"
+                "Can't update registration withing a callback, storing for later."
             );
-            if !source.reregister(
-                &mut self.inner.poll.borrow_mut(),
-                &mut self
-                    .inner
-                    .sources_with_additional_lifecycle_events
-                    .borrow_mut(),
-                &mut TokenFactory::new(entry_token),
-            )? {
-                trace!(
-                    source = entry_token.get_id(),
-                    "Can't update registration withing a callback, storing for later."
-                );
-                // we are in a callback, store for later processing
-                self.inner.pending_action.set(PostAction::Reregister);
-            }
-            Ok(())
-        } else {
-            Err(crate::Error::InvalidToken)
+            // we are in a callback, store for later processing
+            self.inner.pending_action.set(PostAction::Reregister);
         }
+        Ok(())
     }
 
     /// Disables this event source.
     ///
     /// The source remains in the event loop, but it'll no longer generate events
     pub fn disable(&self, token: &RegistrationToken) -> crate::Result<()> {
-        if let &SourceEntry {
-            token: entry_token,
-            source: Some(ref source),
-        } = self.inner.sources.borrow().get(token.inner)?
-        {
-            if !token.inner.same_source_as(entry_token) {
-                // The token provided by the user is no longer valid
-                return Err(crate::Error::InvalidToken);
-            }
-            trace!(source = entry_token.get_id(), "Unregistering source");
-            if !source.unregister(
-                &mut self.inner.poll.borrow_mut(),
-                &mut self
-                    .inner
-                    .sources_with_additional_lifecycle_events
-                    .borrow_mut(),
-                *token,
-            )? {
-                trace!(
-                    source = entry_token.get_id(),
-                    "Cannot unregister source in callback, storing for later."
-                );
-                // we are in a callback, store for later processing
-                self.inner.pending_action.set(PostAction::Disable);
-            }
-            Ok(())
-        } else {
-            Err(crate::Error::InvalidToken)
+        let (entry_token, source) = self.live_source(token)?;
+        if !token.inner.same_source_as(entry_token) {
+            // The token provided by the user is no longer valid
+            return Err(crate::Error::InvalidToken);
         }
+        trace!(source = entry_token.get_id(), "Unregistering source");
+        if !source.unregister(
+            &mut self.inner.poll.borrow_mut(),
+            &mut self
+                .inner
+                .sources_with_additional_lifecycle_events
+                .borrow_mut(),
+            *token,
+        )? {
+            trace!(
+                source = entry_token.get_id(),
+                "Cannot unregister source in callback, storing for later."
+            );
+            // we are in a callback, store for later processing
+            self.inner.pending_action.set(PostAction::Disable);
+        }
+        Ok(())
     }
 
     /// Removes this source from the event loop.
